@@ -12,6 +12,7 @@ import (
 	"os"
 	"os/exec"
 	"sync"
+	"sync/atomic"
 	"time"
 
 	"github.com/virel-project/virel-blockchain/v3/config"
@@ -142,6 +143,10 @@ type localNode struct {
 	got    []pkt
 	synced chan struct{}
 	last   *p2p.Connection
+	// hammer rounds (hammer.go): pause of the consumer after every packet, wake-up of the round's waiter, markers seen
+	slow    atomic.Int64
+	wake    chan struct{}
+	markers map[string]bool
 }
 
 func newLocalNode(key *ecdh.PrivateKey) *localNode {
@@ -150,7 +155,7 @@ func newLocalNode(key *ecdh.PrivateKey) *localNode {
 		p.Privkey = key
 	}
 	pid := p.PeerId()
-	n := &localNode{p: p, id: nodeID(pid[:]), synced: make(chan struct{})}
+	n := &localNode{p: p, id: nodeID(pid[:]), synced: make(chan struct{}), wake: make(chan struct{}, 1), markers: map[string]bool{}}
 	go func() {
 		for pk := range p.PacketsIn {
 			if pk.Conn == nil && uint16(pk.Type) == sentinelType {
@@ -159,7 +164,17 @@ func newLocalNode(key *ecdh.PrivateKey) *localNode {
 			}
 			n.mu.Lock()
 			n.got = append(n.got, pkt{Type: uint16(pk.Type), Data: append([]byte{}, pk.Data...)})
+			if uint16(pk.Type) == hammerMarkerTyp {
+				n.markers[string(pk.Data)] = true
+			}
 			n.mu.Unlock()
+			select {
+			case n.wake <- struct{}{}:
+			default:
+			}
+			if d := n.slow.Load(); d > 0 {
+				time.Sleep(time.Duration(d)) // a slow consumer of PacketsIn (unbuffered): the read loop of the connection stalls
+			}
 		}
 	}()
 	return n
@@ -225,8 +240,16 @@ func (n *localNode) sync() []pkt {
 	return g
 }
 
-func (n *localNode) waitIdle() {
-	deadline := time.Now().Add(ioTimeout)
+func (n *localNode) sawMarker(data []byte) bool {
+	n.mu.Lock()
+	defer n.mu.Unlock()
+	return n.markers[string(data)]
+}
+
+func (n *localNode) waitIdle() { n.waitIdleFor(ioTimeout) }
+
+func (n *localNode) waitIdleFor(d time.Duration) {
+	deadline := time.Now().Add(d)
 	for {
 		n.p.RLock()
 		k := len(n.p.Connections)
